@@ -28,7 +28,7 @@ def fixed_render(case):
     for r in case["rows"]:
         lines.append(line(r))
     if case.get("footer") is not None:
-        lines.append(case["footer"])
+        lines.extend(case["footer"])
     return lines
 
 
@@ -98,7 +98,7 @@ def delim_render(case):
     for r in case["rows"]:
         lines.append(join(r, d))
     if case.get("footer") is not None:
-        lines.append(case["footer"])
+        lines.extend(case["footer"])
     return lines
 
 
